@@ -132,6 +132,7 @@ func checkDispatch(c *Check, p *Program, rel, decoder, codeMethod, codeType, ifa
 	}
 	c.Analysed("functions", FuncName(fn))
 	cases, tag := dispatchTable(c, p, rule, fn)
+	checkDispatchFlow(c, p, rule, fn, tag)
 	pk := p.Pkg(rel)
 	ct := p.Named(rel, codeType)
 	byConst := map[string]*types.Named{}
@@ -407,3 +408,151 @@ func checkC02(c *Check, p *Program) {
 
 // set by the layout engine when it is linked in
 var layoutRulesC02 func(c *Check, p *Program)
+
+// checkDispatchFlow decides the data flow around the type switch of a frame
+// decoder: the code the switch looks at was decoded from the head of the
+// input, the selected body decodes the rest of the input, a successful decode
+// hands the body to the caller, and the reported length is the sum of both.
+func checkDispatchFlow(c *Check, p *Program, rule string, fn *ssa.Function, tag ssa.Value) {
+	name := FuncName(fn)
+	data := inputParam(fn)
+	var bodyCall *ssa.Call
+	var phi *ssa.Phi
+	instrsOf(fn, func(in ssa.Instruction) {
+		if call, ok := in.(*ssa.Call); ok && call.Common().IsInvoke() && call.Common().Method.Name() == "Unpack" {
+			if ph, ok := call.Common().Value.(*ssa.Phi); ok {
+				bodyCall, phi = call, ph
+			}
+		}
+	})
+	if data == nil || bodyCall == nil || tag == nil {
+		return // reported by dispatchTable
+	}
+	isData := func(v ssa.Value) bool { return v == ssa.Value(data) || unspill(v) == ssa.Value(data) }
+	root := func(v ssa.Value) ssa.Value {
+		for {
+			switch x := v.(type) {
+			case *ssa.MakeInterface:
+				v = x.X
+			case *ssa.ChangeType:
+				v = x.X
+			case *ssa.Convert:
+				v = x.X
+			default:
+				return v
+			}
+		}
+	}
+	// 1. the code under the switch
+	var cell *ssa.Alloc
+	if u, ok := root(tag).(*ssa.UnOp); ok && u.Op == token.MUL {
+		cell, _ = u.X.(*ssa.Alloc)
+	}
+	var hdrCall *ssa.Call
+	if cell != nil {
+		instrsOf(fn, func(in ssa.Instruction) {
+			call, ok := in.(*ssa.Call)
+			if !ok || call == bodyCall || len(call.Common().Args) < 2 || !isData(call.Common().Args[0]) {
+				return
+			}
+			for _, a := range call.Common().Args[1:] {
+				if root(a) == ssa.Value(cell) {
+					hdrCall = call
+				}
+			}
+		})
+	}
+	tagIn, _ := tag.(ssa.Instruction)
+	okTag := hdrCall != nil && tagIn != nil && instrDominates(hdrCall, tagIn)
+	if okTag {
+		for _, u := range usesOf(cell) {
+			if st, isSt := u.(*ssa.Store); isSt && st.Addr == ssa.Value(cell) {
+				okTag = false
+			}
+		}
+	}
+	c.Decide(okTag, rule, name+" switches on the code decoded from the head of the input", p.Pos(tag.Pos()), "the switch tag is the cell a header decoder filled from the input, and nothing else writes it", "the value under the switch is not (only) what the header decoder read from the input: every frame is dispatched as the same type")
+	// 2. the body decodes the rest
+	var hdrN ssa.Value
+	if hdrCall != nil {
+		for _, u := range usesOf(hdrCall) {
+			if ex, ok := u.(*ssa.Extract); ok && ex.Index == 0 {
+				hdrN = ex
+			}
+		}
+	}
+	okRest := false
+	if sl, ok := bodyCall.Common().Args[0].(*ssa.Slice); ok && isData(sl.X) && sl.High == nil && sl.Max == nil && hdrN != nil && sl.Low != nil && stripAllConv(sl.Low) == hdrN {
+		okRest = true
+	}
+	c.Decide(okRest, rule, name+" body decodes the input behind the header", p.InstrPos(bodyCall), "body.Unpack(data[n:]) with n the header decoder's count", "the selected body is not handed exactly the input behind the header")
+	// 3. success hands the body over
+	var out *ssa.Parameter
+	for _, prm := range fn.Params {
+		if pt, ok := prm.Type().(*types.Pointer); ok {
+			if _, isI := pt.Elem().Underlying().(*types.Interface); isI {
+				out = prm
+			}
+		}
+	}
+	var bodyErr ssa.Value
+	for _, u := range usesOf(bodyCall) {
+		if ex, ok := u.(*ssa.Extract); ok && ex.Index == 1 {
+			bodyErr = ex
+		}
+	}
+	isHandOver := func(in ssa.Instruction) bool {
+		st, ok := in.(*ssa.Store)
+		if !ok || out == nil || st.Addr != ssa.Value(out) {
+			return false
+		}
+		v := st.Val
+		for {
+			if ci, ok := v.(*ssa.ChangeInterface); ok {
+				v = ci.X
+				continue
+			}
+			break
+		}
+		return v == ssa.Value(phi)
+	}
+	okStore := false
+	if bodyErr != nil && out != nil {
+		// every path on which the body reported no error passes the hand-over once; no other path does
+		var cond ssa.Value
+		pol := true
+		instrsOf(fn, func(in ssa.Instruction) {
+			if bo, ok := in.(*ssa.BinOp); ok && (bo.Op == token.EQL || bo.Op == token.NEQ) {
+				if (bo.X == bodyErr && isNilConst(bo.Y)) || (bo.Y == bodyErr && isNilConst(bo.X)) {
+					cond, pol = bo, bo.Op == token.EQL
+				}
+			}
+		})
+		if cond != nil {
+			mn, mx := pathCountAssuming(bodyCall.Block(), isHandOver, nil, map[ssa.Value]bool{cond: pol})
+			fmn, fmx := pathCountAssuming(bodyCall.Block(), isHandOver, nil, map[ssa.Value]bool{cond: !pol})
+			okStore = mn == 1 && mx == 1 && fmn == 0 && fmx == 0
+		}
+	}
+	c.Decide(okStore, rule, name+" hands the decoded body to the caller exactly when it decoded", p.InstrPos(bodyCall), "*out = body on every path with err == nil, on no path with err != nil", "a successfully decoded body is not stored into the caller's variable on every path (or a failed one is): the caller keeps its previous value and is told the decode succeeded")
+	// 4. the reported length
+	nRet := 0
+	var bodyN ssa.Value
+	for _, u := range usesOf(bodyCall) {
+		if ex, ok := u.(*ssa.Extract); ok && ex.Index == 0 {
+			bodyN = ex
+		}
+	}
+	for _, r := range returnsOf(fn) {
+		if !instrDominates(bodyCall, r) || len(r.Results) < 1 {
+			continue
+		}
+		nRet++
+		okSum := false
+		if bo, ok := stripAllConv(r.Results[0]).(*ssa.BinOp); ok && bo.Op == token.ADD && hdrN != nil && bodyN != nil {
+			okSum = (bo.X == hdrN && bo.Y == bodyN) || (bo.X == bodyN && bo.Y == hdrN)
+		}
+		c.Decide(okSum, rule, name+" reports header + body length", p.InstrPos(r), "n + m", "the consumed length is not the header's plus the body's count")
+	}
+	c.Floor(rule, "returns of "+name+" behind the body decode", nRet, 1)
+}
